@@ -42,6 +42,7 @@ func runC05(c *Check, tier string) {
 	shareRule(c, "R05o", "a target is reported done without executing only past the branch on which a stored target result was found (same obligation as R13a): a state some earlier failed run left behind is never taken for a result", 1, "R13a", func(sub *Check) { ruleR13a(sub, analyseGate(sub, "R13a")) }, func(k string) bool { return strings.Contains(k, "result-found") })
 	// a command that outlives its timeout is a failure whatever it exits with: the runner keeps exec.CommandContext semantics
 	shareRule(c, "R05p", "the command runs on the timeout context through exec.CommandContext with a positive WaitDelay (same obligations as R14c): a command that ends after its deadline, with whatever status, is reported as failed", 4, "R14c", func(sub *Check) { ruleR14c(sub, "R14c") }, nil)
+	ruleRecoveredPanicIsAnError(c, "R05q", "worker", "execution", "dag", "loading", "output", "caching")
 	if false {
 	}
 }
